@@ -657,6 +657,9 @@ class PrecipitateBase(GenericModel):
             _, volDG, self._precBetaTemp[p] = nucfuncs.volumetricDrivingForce(self.therm, xComp, T, precParams, aspectRatio, self.removeCache)
             Y.drivingForce[0,p] = volDG
             if volDG < 0:
+                # no nucleation at this step (the slice still holds the previous step's values)
+                Y.nucRate[0,p] = 0
+                Y.Rnuc[0,p] = 0
                 continue
 
             # Critical Gibbs free energy and radius at nucleation barrier
@@ -673,6 +676,8 @@ class PrecipitateBase(GenericModel):
             
             # If impingement is 0, then skip rest of calculations (no nucleation rate)
             if beta == 0:
+                Y.nucRate[0,p] = 0
+                Y.Rnuc[0,p] = 0
                 continue
 
             # Zeldovich factor
